@@ -243,7 +243,27 @@ func Run(ctx *common.Ctx) {
 	jobs := make([]job, len(progs))
 	for i, p := range progs {
 		pct, slow := p.Yield, p.Slow
+		// synchronized instances of the program: now and then a routine sets them synchronized again or asks whether
+		// they are (both must be without effect; an instance reported as not synchronized raises an error that
+		// nothing in the model accounts for).  Not in programs with exits (see HasExit).
+		var insts []int
+		exits := false
+		for _, rt := range p.Code {
+			exits = exits || HasExit(rt)
+		}
+		for x, kind := range p.Cells {
+			if (kind == "clos" || kind == "flavor") && !exits {
+				insts = append(insts, x)
+			}
+		}
 		jobs[i] = toJob(i, p, func(rid int) string {
+			if len(insts) > 0 && ctx.Rng.Chance(12) {
+				x := insts[ctx.Rng.Intn(len(insts))]
+				if ctx.Rng.Bool() {
+					return fmt.Sprintf(" (set-synchronized o%d t)", x)
+				}
+				return fmt.Sprintf(` (if (synchronizedp o%d) nil (error "c17: a synchronized instance is reported as not synchronized"))`, x)
+			}
 			if rid == slow && ctx.Rng.Chance(40) {
 				return fmt.Sprintf(" (vpause %d)", 20+ctx.Rng.Intn(200))
 			}
